@@ -78,3 +78,119 @@ contract("usim._primitives.flag.InverseFlag.set",
          ensures=["loop.activity is me"],
          on_signal=["loop.activity is me"], on_close=[],
          props=["C08", "C20"])
+
+
+# ====================================================================================================== connectives (C08)
+model("Connective", module="usim._primitives.condition", fields={"_children": LIST(REF("Condition"))}, final=["_children"])
+model("All", module="usim._primitives.condition", fields={})
+model("Any", module="usim._primitives.condition", fields={})
+
+# contextlib.ExitStack, used by Connective.__await_children__ to hold one subscription per child that is not true yet.
+# ASSUMED interface (the stack and the subscriptions it enters are not modelled object by object):
+#   enter_context(child.__subscription__()) subscribes the running activity to that child: it only touches the subscription
+#     state of notifications/interrupts, keeps their invariants, takes no time and does not suspend;
+#   leaving the block unsubscribes all of them again; an exception is swallowed only if it is an Interrupt (one of the
+#     wake-ups the subscriptions created), every other exception and a normal exit pass through unchanged.
+model("ExitStack", module="contextlib", fields={})
+SUBSCRIPTION_STATE = ["Notification._waiting", "Interrupt.sub", "Interrupt.target", "Interrupt.pos", "Interrupt.scheduled",
+                      "Interrupt.due", "Interrupt.immediate", "Interrupt._revoked", "Loop._pending"]
+abstract_contract("ExitStack", "enter_context", ["cm"], assumed=True,
+                  params={"self": REF("ExitStack"), "cm": ANY}, inv_scope=NS,
+                  ensures=["loop.time == old(loop.time)", "loop.activity is old(loop.activity)"],
+                  modifies=SUBSCRIPTION_STATE,
+                  note="assumed: contextlib.ExitStack + Notification.__subscription__ (the latter is proved where it is used directly)")
+abstract_contract("ExitStack", "__exit__", ["exc"], assumed=True,
+                  params={"self": REF("ExitStack"), "exc": ANY}, returns=BOOL, inv_scope=NS,
+                  ensures=["loop.time == old(loop.time)", "loop.activity is old(loop.activity)",
+                           "implies(exc is None or not is_a(exc, Interrupt), result == False)"],
+                  modifies=SUBSCRIPTION_STATE,
+                  note="assumed: see enter_context")
+
+contract("usim._primitives.condition.All.__bool__", pure=True,
+         params={"self": REF("All")}, returns=BOOL,
+         ensures=["result == forall(self._children, lambda c: bool(c))"], modifies=[], props=["C08"])
+contract("usim._primitives.condition.Any.__bool__", pure=True,
+         params={"self": REF("Any")}, returns=BOOL,
+         ensures=["result == exists(self._children, lambda c: bool(c))"], modifies=[], props=["C08"])
+
+# await (a & b), await (a | b): like every condition -- at least one suspension, and completion only in a segment in
+# which the connective evaluates true (it is re-evaluated after every wake-up)
+contract("usim._primitives.condition.Connective.__await_children__",
+         params={"self": REF("Connective")}, returns=BOOL, inv_scope=NS,
+         requires=["loop.activity is me"],
+         suspends=(1, None),
+         ensures=["result == True", "bool(self)", "loop.activity is me"],
+         on_signal=["loop.activity is me"], on_close=[],
+         loop_invariants={"while#1": ["loop.activity is me"], "for#1": ["loop.activity is me"]},
+         loop_consistent=["for#1"],
+         props=["C08", "C20"])
+
+contract("usim._primitives.condition.Connective.__await__",
+         params={"self": REF("Connective")}, returns=BOOL, inv_scope=NS,
+         requires=["loop.activity is me"],
+         suspends=(1, None),
+         ensures=["result == True", "bool(self)", "loop.activity is me"],
+         on_signal=["loop.activity is me"], on_close=[],
+         props=["C08", "C20"])
+
+contract("usim._primitives.condition.Connective.__init__",
+         params={"self": REF("Connective"), "conditions": LIST(REF("Condition"))}, inv_scope=NS,
+         requires=["forall(Interrupt, lambda i: i.sub is not self)"],
+         ensures=["self._children == conditions", "len(self._waiting) == 0"],
+         modifies=["Connective._children@self", "Notification._waiting@self"],
+         props=["C08"])
+
+# boolean algebra on the current values (C08): a & b, a | b
+# (structure first, then -- using the structure clauses as lemmas -- the truth value)
+def _alg(kind, head, tail_plain, tail_conn):
+    cls = "All" if kind == "and" else "Any"
+    op = "and" if kind == "and" else "or"
+    oc = "cast(other, %s)._children" % cls
+    if head == "self":      # Condition.__and__/__or__: the receiver is one child
+        lem = ["implies(isinstance(other, %s), len(result._children) == 1 + len(%s) and result._children[0] is self)" % (cls, oc),
+               "implies(isinstance(other, %s), forall(int, lambda j: implies(0 <= j and j < len(%s), result._children[j + 1] is %s[j])))" % (cls, oc, oc)]
+    else:                   # All.__and__/Any.__or__: the receiver's children come first
+        lem = ["len(result._children) >= len(self._children) and "
+               "forall(int, lambda j: implies(0 <= j and j < len(self._children), result._children[j] is self._children[j]))",
+               "implies(not isinstance(other, %s), len(result._children) == len(self._children) + 1 and "
+               "result._children[len(self._children)] is other)" % cls,
+               "implies(isinstance(other, %s), len(result._children) == len(self._children) + len(%s) and "
+               "forall(int, lambda j: implies(0 <= j and j < len(%s), result._children[len(self._children) + j] is %s[j])))" % (cls, oc, oc, oc)]
+    return ["exact_class(result, %s)" % cls, "fresh_obj(result)",
+            "implies(not isinstance(other, %s), result._children == %s)" % (cls, tail_plain),
+            "implies(isinstance(other, %s), result._children == %s)" % (cls, tail_conn)] + lem + [
+            "bool(result) == (bool(self) %s bool(other))" % op]
+
+ALG_MODIFIES = ["Connective._children", "Notification._waiting"]
+ALG = dict(inv_scope=NS, requires=["other is not None"], modifies=ALG_MODIFIES, check_frame=False, chain_ensures=True, props=["C08"])
+contract("usim._primitives.condition.Condition.__and__",
+         params={"self": REF("Condition"), "other": REF("Condition")}, returns=REF("All"),
+         ensures=_alg("and", "self", "[self, other]", "[self] + cast(other, All)._children"), **ALG)
+contract("usim._primitives.condition.Condition.__or__",
+         params={"self": REF("Condition"), "other": REF("Condition")}, returns=REF("Any"),
+         ensures=_alg("or", "self", "[self, other]", "[self] + cast(other, Any)._children"), **ALG)
+contract("usim._primitives.condition.All.__and__",
+         params={"self": REF("All"), "other": REF("Condition")}, returns=REF("All"),
+         ensures=_alg("and", "children", "self._children + [other]", "self._children + cast(other, All)._children"), **ALG)
+contract("usim._primitives.condition.Any.__or__",
+         params={"self": REF("Any"), "other": REF("Condition")}, returns=REF("Any"),
+         ensures=_alg("or", "children", "self._children + [other]", "self._children + cast(other, Any)._children"), **ALG)
+
+# ~c: a condition whose value is the negation of c's (C08).  Interface every concrete condition is checked against where
+# it is modelled (Flag, InverseFlag, Done, NotDone, After, Before, Eternity, Instant, All, Any); assumed for the others
+# (AsyncComparison of tracked values / resource levels).  Moment and Delay refuse inversion by design.
+abstract_contract("Condition", "__invert__", [],
+                  params={"self": REF("Condition")}, returns=REF("Condition"), inv_scope=NS,
+                  raises={"NotImplementedError": dict(), "TypeError": dict()},
+                  ensures=["result is not None", "bool(result) == (not bool(self))"],
+                  modifies=["Connective._children", "Notification._waiting"], check_frame=False)
+
+INV = dict(inv_scope=NS + ["Flag", "InverseFlag"], chain_ensures=True, check_frame=False, props=["C08"])
+contract("usim._primitives.flag.Flag.__invert__",
+         params={"self": REF("Flag")}, returns=REF("InverseFlag"),
+         ensures=["result is self._inverse", "bool(result) == (not bool(self))"], modifies=[], **INV)
+contract("usim._primitives.flag.InverseFlag.__invert__",
+         params={"self": REF("InverseFlag")}, returns=REF("Flag"),
+         ensures=["result is self._event", "bool(result) == (not bool(self))"], modifies=[], **INV)
+# De Morgan (All.__invert__ / Any.__invert__ map `~` over the children inside a generator expression): not under contract --
+# the engine has no summary for comprehensions whose element expression allocates; listed as a gap of C08.
